@@ -86,7 +86,8 @@ func runC15(args []string) {
 			e.finish("shapes")
 		}
 	}
-	// 2. the listed finding D14c, replayed: the sequence ends with the request that panics inside model interpretation
+	// 2. D14c replayed (YearsOfErosion = 0 used to panic inside the model interpretation; repaired in /repo by 2d5fa4a):
+	//    if it panics again the sequence ends there and the oracle reports it
 	for state := 0; state < 2; state++ {
 		e := w.newEngine(fmt.Sprintf("years-of-erosion-%d", state))
 		if state == 1 {
